@@ -305,6 +305,7 @@ func checkC04(c *Ctx) {
 	// ---- C04.restore ----
 	checkC04BlockHandle(c)
 	checkC04ConnRelease(c)
+	checkC04ErrUnchanged(c)
 	checkC16BlockKeepsChain(c, c.Rule("C04.block-keeps-chain", "the handle a transaction block receives keeps the chain's statement unless the receiver is a root handle (nested arm and Begin agree)", 2))
 	// a BEGIN / SAVEPOINT / COMMIT / ROLLBACK that failed must be reported: a Begin that drops the driver's error
 	// leaves the handle on the plain pool, the block runs in autocommit and the later Rollback undoes nothing
